@@ -4,11 +4,13 @@ namespace vf {
 void runLoadDump(const Opts&, long, CaseLog&);
 void runGenerations(const Opts&, long, CaseLog&);
 void runResidue(const Opts&, long, CaseLog&);
+void runC12Api(const Opts&, long, CaseLog&);
 int modeMain(const Opts& o) {
     if (o.mode == "hist") return runCases(o, runHistCase);
     if (o.mode == "loaddump") return runCases(o, runLoadDump);
     if (o.mode == "gens") return runCases(o, runGenerations);
     if (o.mode == "residue") return runCases(o, runResidue);
+    if (o.mode == "c12api") return runCases(o, runC12Api);
     fprintf(stderr, "unknown mode %s\n", o.mode.c_str());
     return 2;
 }
